@@ -1053,8 +1053,8 @@ class ParserField:
         type = self.type
         # trans = context.transformer
 
+        given = value
         if self.discriminator_map and value is not None:
-            given = value
             if not isinstance(value, Mapping):
                 try:
                     value = context.transformer.to_dict(value)
@@ -1109,7 +1109,8 @@ class ParserField:
                     field=self,
                     origin_exc=e,
                 )
-                return self.handle_value_error(error, value=value, context=context)
+                # (what is preserved is the value as it was given, not the mapping made of it for the discriminator)
+                return self.handle_value_error(error, value=given, context=context)
 
     def handle_value_error(self, error: Exception, value, context: RuntimeContext):
         # the value given for this field is invalid: apply the field's (or the options') policy
